@@ -1612,6 +1612,16 @@ class H2Connection:
         events = self.state_machine.process_input(
             ConnectionInputs.RECV_HEADERS
         )
+        if (self.config.client_side and
+                frame.stream_id not in self.streams and
+                frame.stream_id > self.highest_inbound_stream_id and
+                not self._stream_id_is_outbound(frame.stream_id)):
+            # Only clients open streams with HEADERS: a server has to promise
+            # a stream with PUSH_PROMISE before it may send HEADERS on it.
+            raise ProtocolError(
+                "Received HEADERS on stream %d, which was never promised" %
+                frame.stream_id
+            )
         stream = self._get_or_create_stream(
             frame.stream_id, AllowedStreamIDs(not self.config.client_side)
         )
